@@ -56,7 +56,9 @@ def mnemonic_shapes():
         m = i.mode
         key = (m.inh is not None, m.imm is not None, m.dir is not None, m.ind is not None, m.ext is not None, m.rel is not None,
                m.inh_sz, m.imm_sz, m.dir_sz, m.ind_sz, m.ext_sz, m.rel_sz, i.is_special, i.is_16_bit, i.is_lea,
-               i.is_short_branch, i.is_long_branch)
+               i.is_short_branch, i.is_long_branch,
+               # the opcode page of every mode ($10 / $11 prefixed opcodes are shapes of their own)
+               tuple(None if o is None else o >> 8 for o in (m.inh, m.imm, m.dir, m.ind, m.ext, m.rel)))
         shapes.setdefault(key, []).append(i.mnemonic)
     reps = [v[0] for v in shapes.values()]
     rest = [m for v in shapes.values() for m in v[1:]]
@@ -72,7 +74,10 @@ def grid_cases(mnemonics, rng, values_per_form=None, with_symbols=True):
                 continue
             vals = VALUES + NEG_VALUES
             if values_per_form:
-                vals = rng.sample(vals, min(values_per_form, len(vals)))
+                # the width boundaries are always there (whatever the seed), the rest is sampled
+                always = [v for v in (-129, -128, -255, 127, 128, 255, 256, -32768, 32767, 65535, 0, 15, 16, -16, -17) if v in vals]
+                rest_ = [v for v in vals if v not in always]
+                vals = always + rng.sample(rest_, min(max(values_per_form - 4, 3), len(rest_)))
             for v in vals:
                 for sp, txt in value_texts(v):
                     yield ([" %s %s\n" % (mn, tmpl.format(v=txt))], {"mn": mn, "form": fid, "value": v, "spelling": sp, "kind": "grid"})
